@@ -227,20 +227,25 @@ Proof. cbv zeta. repeat split; vm_compute; reflexivity. Qed.
    is all that is proved.  The harness exercises escapes in queries natively (escape grid, all pairs and triples
    against the net/url normal form).  C09 / C10 are stated over the plain parser (iri_eqb). *)
 
-(* ---- layer 5: the WIDE grammar.  Model/UrlU.v follows net/url of go1.23 on all byte strings but those with userinfo
-   or an IP literal: raw bytes >= 0x80 and "%XX" escapes of any byte in host, path, query and fragment, any ASCII
-   byte url.Parse takes; Model/Fold.v is strings.EqualFold with Unicode simple case folding over the decoded runes
-   (an invalid byte is U+FFFD; U+212A KELVIN SIGN folds onto "k", U+017F onto "s"; the table is Go's, compared with
-   unicode.SimpleFold over all runes on every run: Cases_C14_foldtab); Model/IriEqU.iri_equ is the code of
-   IRI.Equals over them (compared with the real IRI.Equals by Cases_C14_ueq, Cases_C15_ueq; the library models by
-   Cases_C14_ulib, Cases_C14_fold).
-   Domain (iri_dom_u): the IRI is valid UTF-8 as a string, url.Parse gives it a scheme and a host, and its query
-   string is ASCII and holds no upper-case letter OUTSIDE the two hex digits of well-formed escapes.
+(* ---- layer 5: the WIDE grammar.  Model/UrlU.v follows net/url of go1.23 on ALL byte strings: raw bytes >= 0x80 and
+   "%XX" escapes of any byte in host, path, query and fragment, any ASCII byte url.Parse takes, userinfo
+   ("user:password@", kept in URL.User and NOT part of URL.Host) and IP literals ("[::1]", "[fe80::1%25eth0]:8080").
+   Model/Fold.v holds TWO folding comparisons over Go's simple-folding table (compared with unicode.SimpleFold over
+   all runes on every run: Cases_C14_foldtab; U+212A KELVIN SIGN folds onto "k", U+017F onto "s"):
+     ufold_eqb / ucanon  = strings.EqualFold: every byte that is not valid UTF-8 is U+FFFD (Cases_C14_fold);
+     sfold_eqb / scanon  = iri.go equalFold, which IRI.Equals uses since the repair of the finding
+                           C14/invalid-utf8-bytes-equal: such a byte is equal to itself only (Cases_C14_sfold).
+   Model/IriEqU.iri_equ is the code of IRI.Equals over them (compared with the real IRI.Equals by Cases_C14_ueq,
+   Cases_C15_ueq; the library models by Cases_C14_ulib); iri_equ_pinned is the code before the repair.
+   Domain (iri_dom_u): url.Parse gives the string a scheme and a host, and its query string is ASCII and holds no
+   upper-case letter OUTSIDE the two hex digits of well-formed escapes.  Nothing else: the string need not be valid
+   UTF-8 (before the repair it had to: C14_invalid_utf8_pinned_refuted), it may carry userinfo or an IP literal.
    READING of "query strings in one letter case" with escapes: the fast path folds the raw string, the URL comparison
    decodes the query (url.ParseQuery: "+" is a space, "%XX" a byte, a setting with ";" or a malformed escape is dropped)
    and compares keys and values exactly.  "%4a" and "%4A" are the same value, so the letter case of the hex digits
    of escapes is free; the case of the DECODED letters is not what matters ("%4A" = "J" and "%6A" = "j" differ as
-   raw strings and as values: consistent); what must be in one case are the letters written literally. ---- *)
+   raw strings and as values: consistent); what must be in one case are the letters written literally.
+   READING of "agree on host (with port)": URL.Host - userinfo is not compared (C14_userinfo_not_compared). ---- *)
 
 (* strings.EqualFold is the kernel of the canonical form (the decoded runes, each replaced by the smallest rune of
    its simple-folding orbit): an equivalence relation on all byte strings *)
@@ -249,8 +254,18 @@ Proof. exact ufold_eqb_eq. Qed.
 (* on ASCII strings it is the ASCII folding the plain layers use *)
 Theorem C14_fold_ascii : forall a b, forallb is_asciib a = true -> forallb is_asciib b = true -> ufold_eqb a b = fold_eqb a b.
 Proof. exact ufold_eqb_ascii. Qed.
-(* the table condition the theorems rest on (no rune >= 0x80 folds onto an ASCII rune other than "K" and "S"),
-   re-established on the generated table *)
+(* the same of iri.go equalFold, with its own canonical form (an invalid byte b stays apart, as the number 0x110000 + b) *)
+Theorem C14_sfold_kernel : forall a b, sfold_eqb a b = true <-> scanon a = scanon b.
+Proof. exact sfold_eqb_eq. Qed.
+Theorem C14_sfold_ascii : forall a b, forallb is_asciib a = true -> forallb is_asciib b = true -> sfold_eqb a b = fold_eqb a b.
+Proof. exact sfold_eqb_ascii. Qed.
+(* the repair leaves valid UTF-8 alone, and only ever tells more strings apart than strings.EqualFold did *)
+Theorem C14_sfold_valid_utf8 : forall a b, utf8_valid a = true -> utf8_valid b = true -> sfold_eqb a b = ufold_eqb a b.
+Proof. exact sfold_eqb_valid. Qed.
+Theorem C14_sfold_finer : forall a b, sfold_eqb a b = true -> ufold_eqb a b = true.
+Proof. exact sfold_ufold. Qed.
+(* the table condition the theorems rest on (no rune >= 0x80 folds onto an ASCII rune other than "K" and "S"; keys and
+   values are runes, below 0x110000), re-established on the generated table *)
 Theorem C14_fold_table_ok : fold_tab_ok fold_tab = true.
 Proof. exact fold_tab_is_ok. Qed.
 
@@ -259,13 +274,18 @@ Theorem C14_equals_f_is_equals : forall classify qvalues veq peq i w cs,
   iri_equals_f fold_eqb classify qvalues veq peq i w cs = iri_equals classify qvalues veq peq i w cs.
 Proof. exact iri_equals_f_plain. Qed.
 
-(* reflexive and symmetric on ALL byte strings (invalid UTF-8, userinfo, IP literals included) *)
+(* reflexive and symmetric on ALL byte strings *)
 Theorem C14_refl_u : forall s cs, iri_equals_u s s cs = Some true.
 Proof. exact iri_equals_u_refl. Qed.
 Theorem C14_sym_u : forall a b cs, iri_equals_u a b cs = iri_equals_u b a cs.
 Proof. exact iri_equals_u_sym. Qed.
 
-(* percent-decoding respects EqualFold on valid UTF-8 *)
+(* percent-decoding respects equalFold: ALL byte strings (an invalid byte is copied by the decoding on both sides, and
+   whatever it completes or is completed by after decoding is the same on both sides) *)
+Theorem C14_decode_fold_s : forall rp rp' d d',
+  scanon rp = scanon rp' -> pct_decode rp = Some d -> pct_decode rp' = Some d' -> scanon d = scanon d'.
+Proof. exact pct_decode_scanon. Qed.
+(* percent-decoding respects strings.EqualFold on valid UTF-8 *)
 Theorem C14_decode_fold_u : forall rp rp' d d',
   utf8_valid rp = true -> utf8_valid rp' = true -> ucanon rp = ucanon rp' ->
   pct_decode rp = Some d -> pct_decode rp' = Some d' -> ucanon d = ucanon d'.
@@ -276,32 +296,39 @@ Theorem C14_decode_fold_needs_valid_utf8 :
     /\ utf8_valid rp = false.
 Proof. exact invalid_utf8_decode_differs. Qed.
 
-(* filepath.Clean respects EqualFold, for all byte strings *)
-Theorem C14_clean_fold_u : forall p p', ucanon p = ucanon p' -> ucanon (path_clean p) = ucanon (path_clean p').
+(* filepath.Clean respects equalFold, for all byte strings *)
+Theorem C14_clean_fold_u : forall p p', scanon p = scanon p' -> scanon (path_clean p) = scanon (path_clean p').
 Proof. exact path_clean_feq. Qed.
 
-(* the fast path implies the URL comparison of scheme, host and cleaned path, and EqualFold-equal raw queries *)
+(* the fast path implies the URL comparison of scheme, host and cleaned path, and fold-equal raw queries: for ANY two
+   byte strings that parse to a URL with scheme and host (userinfo, if any, is skipped: the host is what follows the
+   LAST "@" of the authority on both sides) *)
 Theorem C14_fast_path_u : forall a b cs u w,
-  utf8_valid a = true -> utf8_valid b = true ->
   url_classify_u a = UValid u -> url_classify_u b = UValid w ->
-  ufold_eqb (strip_for cs a) (strip_for cs b) = true ->
-  (cs = true -> ucanon (u_scheme u) = ucanon (u_scheme w)) /\
-  ucanon (u_host u) = ucanon (u_host w) /\
-  ucanon (clean_url_path path_clean (u_path u)) = ucanon (clean_url_path path_clean (u_path w)) /\
-  ucanon (u_query u) = ucanon (u_query w).
+  sfold_eqb (strip_for cs a) (strip_for cs b) = true ->
+  (cs = true -> scanon (u_scheme u) = scanon (u_scheme w)) /\
+  scanon (u_host u) = scanon (u_host w) /\
+  scanon (clean_url_path path_clean (u_path u)) = scanon (clean_url_path path_clean (u_path w)) /\
+  scanon (u_query u) = scanon (u_query w).
 Proof. exact fast_u. Qed.
 
+(* what url.Parse accepted, spelled out: the reading of every string of the domain *)
+Theorem C14_url_reading_u : forall s u, url_classify_u s = UValid u ->
+  exists sch up rh rp qo fo, ustruct s sch up rh rp qo fo /\
+    u_scheme u = lower sch /\ pct_decode rh = Some (u_host u) /\ pct_decode rp = Some (u_path u) /\ u_query u = opt_or_nil qo.
+Proof. exact classify_u_struct. Qed.
+
 (* queries: strings that differ only in the letter case of the hex digits of well-formed escapes decode to the same
-   pairs; two query strings of the one-case class that EqualFold identifies differ only so *)
+   pairs; two query strings of the one-case class that the folding identifies differ only so *)
 Theorem C14_query_hex_case : forall q q', heq q q' -> query_pairs_u q = query_pairs_u q'.
 Proof. exact query_pairs_u_heq. Qed.
 Theorem C14_query_one_case : forall q q',
-  q_lower_class q = true -> q_lower_class q' = true -> ucanon q = ucanon q' -> query_pairs_u q = query_pairs_u q'.
+  q_lower_class q = true -> q_lower_class q' = true -> scanon q = scanon q' -> query_pairs_u q = query_pairs_u q'.
 Proof. exact class_pairs. Qed.
 
 (* THE CHARACTERISATION on the wide grammar: IRI.Equals is the kernel of the normal form nf_u = (scheme iff asked,
-   host with port, cleaned path - each as its canonical rune list under EqualFold - and the sorted list of DECODED
-   query pairs), for both values of the flag *)
+   host with port, cleaned path - each as its canonical list under equalFold - and the sorted list of DECODED query
+   pairs), for both values of the flag, on ALL byte strings the parser gives a scheme and a host *)
 Theorem C14_char_u : forall a b cs,
   iri_dom_u a = true -> iri_dom_u b = true -> iri_equ a b cs = nf_u_eqb (nf_u cs a) (nf_u cs b).
 Proof. exact iri_equ_nf. Qed.
@@ -310,9 +337,9 @@ Theorem C14_char_u_eq : forall a b cs,
   iri_dom_u a = true -> iri_dom_u b = true -> (iri_equ a b cs = true <-> nf_u cs a = nf_u cs b).
 Proof. exact iri_equ_nf_eq. Qed.
 
-(* generic in the one-case class: ANY class of query strings on which EqualFold-equal strings decode alike *)
+(* generic in the one-case class: ANY class of query strings on which fold-equal strings decode alike *)
 Theorem C14_char_u_generic : forall qok : bytes -> bool,
-  (forall q q', qok q = true -> qok q' = true -> ucanon q = ucanon q' -> query_pairs_u q = query_pairs_u q') ->
+  (forall q q', qok q = true -> qok q' = true -> scanon q = scanon q' -> query_pairs_u q = query_pairs_u q') ->
   forall a b cs, iri_dom_u_with qok a = true -> iri_dom_u_with qok b = true ->
   iri_equ a b cs = nf_u_eqb (nf_u cs a) (nf_u cs b).
 Proof. exact iri_equ_nf_with. Qed.
@@ -339,37 +366,70 @@ Theorem C14_differ_u : forall a b cs,
   iri_dom_u a = true -> iri_dom_u b = true -> nf_u_eqb (nf_u false a) (nf_u false b) = false -> iri_equ a b cs = false.
 Proof. exact iri_equ_differ. Qed.
 
-(* any two valid-UTF-8 IRIs with scheme and host that compare equal agree on scheme (when asked), host and
-   cleaned path up to EqualFold - whatever their queries look like *)
+(* ANY two IRIs with scheme and host that compare equal agree on scheme (when asked), host and cleaned path up to
+   the folding - whatever their queries look like *)
 Theorem C14_equal_parts_u : forall a b cs u w,
-  utf8_valid a = true -> utf8_valid b = true -> url_classify_u a = UValid u -> url_classify_u b = UValid w ->
+  url_classify_u a = UValid u -> url_classify_u b = UValid w ->
   iri_equ a b cs = true ->
-  (cs = true -> ucanon (u_scheme u) = ucanon (u_scheme w)) /\
-  ucanon (u_host u) = ucanon (u_host w) /\
-  ucanon (clean_url_path path_clean (u_path u)) = ucanon (clean_url_path path_clean (u_path w)).
+  (cs = true -> scanon (u_scheme u) = scanon (u_scheme w)) /\
+  scanon (u_host u) = scanon (u_host w) /\
+  scanon (clean_url_path path_clean (u_path u)) = scanon (clean_url_path path_clean (u_path w)).
 Proof. exact iri_equ_true_parts. Qed.
 
-(* why the domain asks for valid UTF-8: "http://h/\xE2%84%AA" is equal to "http://h/\uFFFD%84%AA" by the fast path
-   (both raw strings decode to U+FFFD "%84%AA") and to "http://h/./\xE2%84%AA" by the URL comparison (both paths decode
-   to U+212A), but the last two are unequal.  Replayed on the real IRI.Equals by the harness. *)
-Theorem C14_valid_utf8_needed :
+(* USERINFO is not compared.  The property names host (with port), cleaned path and query parameters; URL.Host
+   excludes the userinfo and nothing in IRI.Equals looks at URL.User.  So: every IRI with scheme and host reads
+   scheme "://" [userinfo "@"] rest, the same string without the userinfo parses to the SAME scheme, host, path, query
+   and fragment, and the two are equal for both flags; and any userinfo url.validUserinfo accepts (with well-formed
+   escapes) can be put in front of a host without changing what url.Parse hands to the comparison. *)
+Theorem C14_userinfo_not_compared : forall s u, url_classify_u s = UValid u ->
+  exists sch up rest fo, s = (sch ++ B "://" ++ up ++ rest) ++ tail_of hash fo /\ uprefix up /\
+    url_classify_u ((sch ++ B "://" ++ rest) ++ tail_of hash fo) = UValid u /\
+    forall cs, iri_equ s ((sch ++ B "://" ++ rest) ++ tail_of hash fo) cs = true.
+Proof. exact iri_equ_drop_userinfo. Qed.
+Theorem C14_userinfo_added : forall sch ui rh rp qo fo h d,
+  forallb is_scheme_char sch = true -> match sch with c0 :: _ => is_alpha c0 = true | [] => False end ->
+  existsb is_ctl (sch ++ B "://" ++ rh ++ rp ++ tail_of qmark qo) = false ->
+  notin hash (sch ++ B "://" ++ rh ++ rp ++ tail_of qmark qo) = true ->
+  notin slash rh = true -> notin qmark (rh ++ rp) = true -> notin atsign rh = true -> parse_host rh = Some h ->
+  (rp = [] \/ exists p, rp = slash :: p) -> pct_decode rp = Some d -> userinfo_ok ui = true ->
+  url_classify_u ((sch ++ B "://" ++ (ui ++ atsign :: rh) ++ rp ++ tail_of qmark qo) ++ tail_of hash fo) =
+  url_classify_u ((sch ++ B "://" ++ rh ++ rp ++ tail_of qmark qo) ++ tail_of hash fo).
+Proof. exact classify_u_add_userinfo. Qed.
+Theorem C14_same_url_equal : forall a b cs u, url_classify_u a = UValid u -> url_classify_u b = UValid u -> iri_equ a b cs = true.
+Proof. exact iri_equ_same_url. Qed.
+(* whatever url.parseHost accepts - IP literals with zone and port included - URL.Host is the percent-decoding of the
+   raw host as a whole *)
+Theorem C14_host_is_decoded : forall rh h, parse_host rh = Some h -> pct_decode rh = Some h.
+Proof. exact parse_host_decode. Qed.
+
+(* PINNED TREE (finding C14/invalid-utf8-bytes-equal, repaired by a fix: commit): the five comparisons were
+   strings.EqualFold.  (1) Any two bytes that are not valid UTF-8 - raw or as the decoding of an escape - were equal,
+   and equal to U+FFFD: "/%ff" = "/%fe" = "/<U+FFFD>", although the paths differ by more than letter case.  (2) Outside
+   valid UTF-8 the comparison was not transitive: "http://h/\xE2%84%aa" was equal to "http://h/<U+FFFD>%84%AA" by the
+   fast path (both raw strings decoded to U+FFFD "%84%AA") and to "http://h/./\xE2%84%aa" by the URL comparison (both
+   paths decode to U+212A), but the last two were unequal.  Both theorems also state what the repaired code answers
+   on the same strings (all of them in iri_dom_u); the harness replays them on the real IRI.Equals. *)
+Theorem C14_invalid_bytes_pinned_refuted :
+  iri_equ_pinned (B "http://h/%ff") (B "http://h/%fe") true = true /\
+  iri_equ_pinned (B "http://h/%ff") (hx "687474703a2f2f682fefbfbd") true = true /\
+  iri_dom_u (B "http://h/%ff") = true /\ iri_dom_u (B "http://h/%fe") = true /\
+  iri_equ (B "http://h/%ff") (B "http://h/%fe") true = false /\
+  iri_equ (B "http://h/%ff") (hx "687474703a2f2f682fefbfbd") true = false /\
+  nf_u true (B "http://h/%ff") <> nf_u true (B "http://h/%fe") /\
+  iri_equ (B "http://h/A%ff") (B "http://h/./a%FF") true = true.
+Proof. exact invalid_bytes_equal_pinned. Qed.
+Theorem C14_invalid_utf8_pinned_refuted :
   exists a b c, utf8_valid a = false /\ utf8_valid b = true /\ utf8_valid c = false /\
-    iri_equ c a false = true /\ iri_equ a b false = true /\ iri_equ c b false = false.
-Proof. exact invalid_utf8_not_transitive. Qed.
+    iri_equ_pinned c a false = true /\ iri_equ_pinned a b false = true /\ iri_equ_pinned c b false = false /\
+    iri_dom_u a = true /\ iri_dom_u b = true /\ iri_dom_u c = true /\
+    iri_equ c a false = true /\ iri_equ a b false = false /\ iri_equ c b false = false.
+Proof. exact invalid_utf8_not_transitive_pinned. Qed.
 
 (* the one-case condition is still needed, for the letters outside escapes *)
 Theorem C14_one_case_needed_u :
   exists a b c, iri_dom_u_upper a = true /\ iri_dom_u b = true /\ iri_dom_u c = true /\
     iri_equ a b false = true /\ iri_equ b c false = true /\ iri_equ a c false = false.
 Proof. exact mixed_case_not_transitive_u. Qed.
-
-(* FINDING (class invalid-utf8-bytes-fold-equal): inside the domain the relation is an equivalence, but it is coarser
-   than "letter case ignored": any two bytes that are not valid UTF-8 - here in a decoded path - are equal, because
-   strings.EqualFold decodes each to U+FFFD.  Replayed on the real code (native check of harness/c14u.go). *)
-Theorem C14_invalid_bytes_equal :
-  iri_equ (B "http://h/%ff") (B "http://h/%fe") true = true /\ iri_dom_u (B "http://h/%ff") = true /\
-  nf_u true (B "http://h/%ff") = nf_u true (B "http://h/%fe").
-Proof. exact invalid_bytes_equal. Qed.
 
 (* the wide models extend the earlier ones: an IRI the parser of layer 4 accepts is parsed to the SAME url value, lies in
    the wide domain when it lies in iri_dom_x (hence when it lies in iri_dom: C14_x_conservative), and the two models of
@@ -402,34 +462,55 @@ Example C14_char_u_example :
                        [(B "k", B "a b c"); (B "x", B "J")])%N.
 Proof. cbv zeta. repeat split; vm_compute; reflexivity. Qed.
 
+(* the same with what was outside before: userinfo, an IP literal with zone and port, bytes that are not valid UTF-8
+   (raw 0xFF in the path of a, its escape in b; 255 + 0x110000 = 1114367 in the normal form).
+   a = "HTTP://Alice:pw@[FE80::1%25eth0]:8080/x/../A\xff?k=%4a", b = "http://[fe80::1%25ETH0]:8080/a%FF?k=%4A#f",
+   c = "http://bob@[fe80::1%25eth0]:8080/a%FE?k=%4a" *)
+Example C14_char_u_example_wide :
+  let a := hx "485454503a2f2f416c6963653a7077405b464538303a3a31253235657468305d3a383038302f782f2e2e2f41ff3f6b3d253461" in
+  let b := B "http://[fe80::1%25ETH0]:8080/a%FF?k=%4A#f" in
+  let c := B "http://bob@[fe80::1%25eth0]:8080/a%FE?k=%4a" in
+  iri_dom_u a = true /\ iri_dom_u b = true /\ iri_dom_u c = true /\ utf8_valid a = false /\
+  iri_equ a b true = true /\ iri_equ b a false = true /\ iri_equ a c true = false /\ iri_equ_pinned a c true = true /\
+  nf_u false a = Some ([], [91; 70; 69; 56; 48; 58; 58; 49; 37; 69; 84; 72; 48; 93; 58; 56; 48; 56; 48],
+                       [47; 65; 1114367], [(B "k", B "J")])%N /\
+  parse_authority (B "Alice:pw@[FE80::1%25eth0]:8080") = Some (Some (B "Alice", Some (B "pw")), B "[FE80::1%eth0]:8080") /\
+  userinfo_ok (B "Alice:pw") = true /\ userinfo_ok (B "a b") = false /\ parse_host (B "[::1") = None.
+Proof. cbv zeta. repeat split; vm_compute; reflexivity. Qed.
+
 (* the hypotheses of the wide lemmas are satisfiable by non-trivial values *)
 Example C14_wide_hypotheses_examples :
   (* C14_decode_fold_u: "/é/K" and "/É/<KELVIN SIGN>", raw; an escaped path that decodes *)
   utf8_valid (hx "2fc3a92f4b") = true /\ utf8_valid (hx "2fc3892fe284aa") = true /\
   ucanon (hx "2fc3a92f4b") = ucanon (hx "2fc3892fe284aa") /\ pct_decode (B "/%C3%A9") = Some (hx "2fc3a9") /\
+  (* C14_decode_fold_s: "/A\xff%84" and "/a\xff%84": not valid UTF-8, equal under equalFold, and so are the decodings *)
+  scanon (hx "2f41ff253834") = scanon (hx "2f61ff253834") /\ pct_decode (hx "2f41ff253834") = Some (hx "2f41ff84") /\ utf8_valid (hx "2f41ff253834") = false /\
   (* C14_query_hex_case / C14_query_one_case *)
   heq (B "x=%4a&y=a+b") (B "x=%4A&y=a+b") /\
   q_lower_class (B "x=%4a&y=a+b") = true /\ q_lower_class (B "x=%4A&y=a+b") = true /\ q_lower_class (B "X=1") = false /\
-  ucanon (B "x=%4a&y=a+b") = ucanon (B "x=%4A&y=a+b") /\
+  scanon (B "x=%4a&y=a+b") = scanon (B "x=%4A&y=a+b") /\
   query_pairs_u (B "x=%4a&y=a+b;c&z=%zz&w") = [(B "x", B "J"); (B "w", [])] /\
-  (* C14_fast_path_u: http://h/é/k?x=%4a and HTTP://H/É/<KELVIN SIGN>?x=%4A#f are equal by the fast path *)
-  utf8_valid (hx "687474703a2f2f682fc3a92f6b3f783d253461") = true /\
-  utf8_valid (hx "485454503a2f2f482fc3892fe284aa3f783d2534412366") = true /\
+  (* C14_fast_path_u: http://h/é/k?x=%4a and HTTP://H/É/<KELVIN SIGN>?x=%4A#f are equal by the fast path; so are
+     http://u@h/A\xff and HTTP://U@H/a\xff *)
   iri_dom_u (hx "687474703a2f2f682fc3a92f6b3f783d253461") = true /\
   iri_dom_u (hx "485454503a2f2f482fc3892fe284aa3f783d2534412366") = true /\
-  ufold_eqb (strip_for true (hx "687474703a2f2f682fc3a92f6b3f783d253461")) (strip_for true (hx "485454503a2f2f482fc3892fe284aa3f783d2534412366")) = true.
+  sfold_eqb (strip_for true (hx "687474703a2f2f682fc3a92f6b3f783d253461")) (strip_for true (hx "485454503a2f2f482fc3892fe284aa3f783d2534412366")) = true /\
+  iri_dom_u (hx "687474703a2f2f7540682f41ff") = true /\
+  sfold_eqb (strip_for true (hx "687474703a2f2f7540682f41ff")) (strip_for true (hx "485454503a2f2f5540482f61ff")) = true.
 Proof.
   split; [vm_compute; reflexivity|]. split; [vm_compute; reflexivity|]. split; [vm_compute; reflexivity|]. split; [vm_compute; reflexivity|].
+  split; [vm_compute; reflexivity|]. split; [vm_compute; reflexivity|]. split; [vm_compute; reflexivity|].
   split; [apply heq_same, heq_same; apply heq_esc; try reflexivity; apply heq_refl|].
   split; [vm_compute; reflexivity|]. split; [vm_compute; reflexivity|]. split; [vm_compute; reflexivity|]. split; [vm_compute; reflexivity|].
   split; [vm_compute; reflexivity|]. split; [vm_compute; reflexivity|]. split; [vm_compute; reflexivity|]. split; [vm_compute; reflexivity|].
   split; vm_compute; reflexivity.
 Qed.
 
-(* REMAINS OUTSIDE the wide layer: userinfo and IP literals (url_classify_u answers UUnmodelled: layer 1 only);
-   query strings with raw bytes >= 0x80 or with letters in both cases outside escapes; IRIs that are not valid UTF-8
-   (reflexive and symmetric; transitivity fails: C14_valid_utf8_needed).  Layers 2-4 (plain grammar, ASCII folding)
-   stay as they are; on ASCII strings the two foldings agree (C14_fold_ascii). *)
+(* REMAINS OUTSIDE the wide layer: query strings with raw bytes >= 0x80 or with letters in both cases outside escapes
+   (reflexive and symmetric; mixing the two cases is not transitive: C14_one_case_needed_u); strings url.Parse gives no
+   scheme or no host (compared as whole strings by equalFold: an equivalence relation, C14_sfold_kernel, but outside
+   "absolute URLs").  Layers 2-4 (plain grammar, ASCII folding) stay as they are; on ASCII strings the foldings agree
+   (C14_fold_ascii, C14_sfold_ascii). *)
 
 (* ---- the grid of the harness (harness/c14.go: c14Schemes x c14Hosts x c14Paths x c14Queries x c14Frags, the
    nested-URL pairs and the id pools of C10 / gen.go) lies in the domain.  The harness also sends its own
